@@ -927,8 +927,12 @@ func errlineOne(r *errRec, i int, seed int64, tmpdir string) (string, error, err
 			}
 		}
 	}
-	// the same text with escape sequences that denote (but are not) line breaks in every string
-	if v := escapeVariant(text); v != text {
+	// the same text with escape sequences that denote (but are not) line breaks in every string, and with raw line feeds
+	// at the places inside strings where a parser that copies runs or folds escapes may lose count
+	for _, v := range []string{escapeVariant(text), rawLFVariant(text)} {
+		if v == text {
+			continue
+		}
 		judged, err := hookOracle(root, v)
 		if judged {
 			es.judged++
@@ -1001,6 +1005,32 @@ func escapeVariant(text string) string {
 		case c == '"' && in:
 			in = false
 			b.WriteString("\\u000a\\r\"")
+		default:
+			b.WriteByte(c)
+		}
+	}
+	return b.String()
+}
+
+// rawLFVariant puts RAW line feeds into every string literal: right after the opening quote (followed by plain characters),
+// after an escape sequence, after a non-ASCII character and right after a backslash. Whatever the parser makes of such
+// strings, every raw line feed is a line break of the text, and the exact rule (hookOracle) still applies.
+func rawLFVariant(text string) string {
+	var b strings.Builder
+	in := false
+	for i := 0; i < len(text); i++ {
+		c := text[i]
+		switch {
+		case in && c == '\\' && i+1 < len(text):
+			b.WriteByte(c)
+			i++
+			b.WriteByte(text[i])
+		case c == '"' && !in:
+			in = true
+			b.WriteString("\"\nxy\\t\nzz\u00e9\nab")
+		case c == '"' && in:
+			in = false
+			b.WriteString("q\\\nrs\"")
 		default:
 			b.WriteByte(c)
 		}
